@@ -48,3 +48,4 @@ include!("c10.rs");
 include!("c11.rs");
 include!("c05.rs");
 include!("c04.rs");
+include!("c06.rs");
